@@ -28,6 +28,7 @@ use tokio_util::codec::FramedRead;
 use uuid::Uuid;
 
 use crate::agentdef::{Rec, SharedRec, TestAgent, TestLifecycle, M1, M2, M3, S1, V1, V2};
+use crate::selectdef::{SelCounters, SelectAgent, SelectLifecycle};
 use crate::remote::{
     new_ctl, reader_task, set_stalled, FrameLog, Pace, PacedReader, ReaderEnd, RemoteWriter, Req, ReqKind, SharedCtl, SharedLog,
 };
@@ -142,12 +143,28 @@ pub struct Obs {
     pub quiescent: Option<u64>,
     pub probe_session: Option<usize>,
     pub take_drops: Vec<TakeDropObs>,
+    pub effects: Vec<EffectObs>,
     pub snapshots: Vec<SnapshotPoint>,
     pub stuck: Vec<String>,
     pub identity: Uuid,
     pub target_frames: Vec<TargetFrame>,
     pub jitter_deferred: u64,
     pub crashed: bool,
+    /// Select agent only: how often the agent model was handed a handler of the select family.
+    pub select_counts: Option<Vec<(&'static str, u64)>>,
+}
+
+/// One command-effect probe (`Step::Effect`): the lane's callback history was `hist_before` long
+/// at the quiescent point before the command was sent and `hist_after` long at the one after.
+#[derive(Clone, Debug)]
+pub struct EffectObs {
+    pub lane: String,
+    pub body: String,
+    pub hist_before: usize,
+    pub hist_after: usize,
+    pub sent: bool,
+    /// Ticket of the quiescent point after the command.
+    pub t_after: u64,
 }
 
 #[derive(Clone, Debug)]
@@ -174,11 +191,24 @@ pub struct Options {
     /// Command-channel faults (C14, fault part only): the link server follows this plan, the runtime
     /// runs with the plan's retry strategy and idle time-out.
     pub faults: Option<FaultPlan>,
+    /// Host the conversation on the hand-written `SelectAgent` (handlers of the `*Select*` family)
+    /// instead of the derived `TestAgent`.
+    pub select_agent: bool,
 }
 
 impl Default for Options {
     fn default() -> Self {
-        Options { reporting: false, stop_at_end: true, probe: true, targets: 0, target_caps: vec![], target_pace: vec![], crash_after: None, faults: None }
+        Options {
+            reporting: false,
+            stop_at_end: true,
+            probe: true,
+            targets: 0,
+            target_caps: vec![],
+            target_pace: vec![],
+            crash_after: None,
+            faults: None,
+            select_agent: false,
+        }
     }
 }
 
@@ -214,6 +244,7 @@ pub struct Runner {
     stuck: Vec<String>,
     rec: SharedRec,
     take_drops: Vec<TakeDropObs>,
+    effects: Vec<EffectObs>,
     reporters: Arc<Mutex<Vec<(String, UplinkReportReader)>>>,
     aggregate: Option<UplinkReportReader>,
     snapshots: Vec<SnapshotPoint>,
@@ -413,6 +444,24 @@ impl Runner {
                 let after = self.rec.lock().map_hist[*lane as usize].len();
                 self.take_drops.push(TakeDropObs { lane: *lane, take: *take, n: *n, hist_before: before, hist_after: after, sent });
             }
+            Step::Effect { remote, lane, body } => {
+                let hist_len = |rec: &SharedRec| {
+                    let r = rec.lock();
+                    match lane.as_str() {
+                        V1 => r.value_hist[0].len(),
+                        V2 => r.value_hist[1].len(),
+                        M1 => r.map_hist[0].len(),
+                        M2 => r.map_hist[1].len(),
+                        _ => r.map_hist[2].len(),
+                    }
+                };
+                settle().await;
+                let before = hist_len(&self.rec);
+                let sent = self.send(*remote, ReqKind::Command, lane, body).await;
+                settle().await;
+                let after = hist_len(&self.rec);
+                self.effects.push(EffectObs { lane: lane.clone(), body: body.clone(), hist_before: before, hist_after: after, sent, t_after: ticket() });
+            }
             Step::StallTargets(stalled) => {
                 *self.targets_stalled.lock() = *stalled;
                 for c in self.target_ctls.lock().iter() {
@@ -593,12 +642,18 @@ where
     let rec2 = rec.clone();
     rt.block_on(async move {
         let eager = rng.below(targets.len() as u64 + 1) as u32;
-        let lifecycle = TestLifecycle { rec: rec2.clone(), targets: Arc::new(targets), commanders: Default::default(), eager };
-        let agent = JitterAgent {
-            inner: AgentModel::new(TestAgent::default, lifecycle.into_lifecycle()),
-            rng: Mutex::new(rng2.fork()),
-            per_mille: cfg2.agent_jitter_per_mille,
+        let select_counters = opts.select_agent.then(|| Arc::new(SelCounters::default()));
+        let inner: swimos_api::agent::BoxAgent = match select_counters.clone() {
+            None => {
+                let lifecycle = TestLifecycle { rec: rec2.clone(), targets: Arc::new(targets), commanders: Default::default(), eager };
+                Box::new(AgentModel::new(TestAgent::default, lifecycle.into_lifecycle()))
+            }
+            Some(counters) => {
+                let lifecycle = SelectLifecycle { rec: rec2.clone(), targets: Arc::new(targets), commanders: Default::default(), eager };
+                Box::new(AgentModel::new(move || SelectAgent::new(counters.clone()), lifecycle.into_lifecycle()))
+            }
         };
+        let agent = JitterAgent { inner, rng: Mutex::new(rng2.fork()), per_mille: cfg2.agent_jitter_per_mille };
         let (att_tx, att_rx) = mpsc::channel(8);
         let (_http_tx, http_rx) = mpsc::channel(1);
         let (link_tx, link_rx) = mpsc::channel(8);
@@ -667,6 +722,7 @@ where
             stuck: vec![],
             rec: rec2.clone(),
             take_drops: vec![],
+            effects: vec![],
             reporters,
             aggregate,
             snapshots: vec![],
@@ -789,12 +845,14 @@ where
             quiescent,
             probe_session,
             take_drops: runner.take_drops,
+            effects: runner.effects,
             snapshots: runner.snapshots,
             stuck: runner.stuck,
             identity,
             target_frames: tf,
             jitter_deferred: 0,
             crashed,
+            select_counts: select_counters.map(|c| c.snapshot()),
         }
     })
 }
